@@ -9,7 +9,9 @@ import (
 
 // Accessors used only by the verification harness (build tag verif).
 
-func (c *CertRevocationValidator) VerifCRLChecker() *crl.CRLRevocationChecker { return c.crlRevocationChecker }
+func (c *CertRevocationValidator) VerifCRLChecker() *crl.CRLRevocationChecker {
+	return c.crlRevocationChecker
+}
 
 func (c *CertRevocationValidator) VerifOCSPChecker() *ocsp.OCSPRevocationChecker {
 	return c.ocspRevocationChecker
